@@ -4,7 +4,7 @@ CONSTANTS
   MaxConn = 2
   MaxFrames = 2
   MaxCancels = 2
-  Fixed = FALSE
+  Fixes = {}
   MaxSteps = 7
 SPECIFICATION GenSpec
 CONSTRAINT GenConstraint
